@@ -1,25 +1,40 @@
 #!/bin/bash
-# stage 2 of the mutation sweep: run the quick checks against every survivor (mutated file copied into /repo, restored afterwards)
-# usage: mut_stage2.sh <survivors.txt> <outfile>
-cd /verif
-SURV="$1"; OUT="$2"; : > "$OUT"
-restore() { git -C /repo checkout -- . ; }
-trap restore EXIT
-if ! git -C /repo diff --quiet; then echo "/repo dirty"; exit 2; fi
+# stage 2 of the mutation sweep: run the quick checks relevant to the mutated file against every mutant that passes the pinned
+# suite. Works on private copies (ISO, default /tmp/iso-mut): a plain copy of /repo HEAD and a copy of the committed harness whose
+# go.mod points at it, so /repo itself is never modified. Resumable: descriptions already present in <outfile> are skipped.
+# usage: mut_stage2.sh <survivors.txt> <outfile>      (lines of survivors.txt: <mutant file>|<relative path>|<description>)
+SURV="$1"; OUT="$2"
+ISO=${ISO:-/tmp/iso-mut}
+export GOFLAGS=-mod=mod GOPROXY=off GOSUMDB=off GOTOOLCHAIN=local
+if [ ! -d "$ISO/vc" ]; then
+  mkdir -p "$ISO/repo" "$ISO/vc"
+  git -C /repo archive HEAD | tar -x -C "$ISO/repo"
+  git -C /verif archive HEAD | tar -x -C "$ISO/vc"
+  sed -i "s#=> /repo#=> $ISO/repo#" "$ISO/vc/harness/go.mod"
+fi
+R="$ISO/repo"
+cd "$ISO/vc" || exit 2
 while IFS='|' read m f desc; do
+  grep -qF "|$desc|" "$OUT" 2>/dev/null && continue
+  case "$desc" in *verifIdle*) echo "EXCLUDED|$desc|mutates the verif hook call" >> "$OUT"; continue;; esac
   case "$f" in
     dag/dag.go) cs="C13 C14 C16 C15";;
-    internal/help/help.go|user_help.go) cs="C18 C11 C20 C17 C10 C19";;
-    *) cs="C03 C06 C10 C08 C01 C02 C04 C05 C07 C09 C11 C12 C17 C18 C20 C19";;
+    internal/help/help.go|user_help.go) cs="C18 C11 C20 C17";;
+    internal/option/option.go) cs="C01 C02 C12 C06 C18 C17 C20";;
+    isoption.go) cs="C07 C03 C01 C19";;
+    user_options.go) cs="C06 C12 C01 C02 C18 C17";;
+    user.go) cs="C10 C11 C03 C08 C06 C20 C17";;
+    *) cs="C03 C08 C09 C04 C05 C07 C02 C10 C17 C19 C01";;
   esac
-  cp "$m" /repo/$f
+  cp "$R/$f" "$ISO/orig.tmp"; cp "$m" "$R/$f"
   hit=""
   for c in $cs; do
-    out=$(VERIF_NO_EVIDENCE=1 timeout 900 ./check $c quick 2>&1); rc=$?
+    out=$(VERIF_NO_EVIDENCE=1 timeout 400 ./check $c quick 2>&1); rc=$?
     if [ $rc -eq 1 ] && echo "$out" | grep -q "^VIOLATION property=$c"; then hit="$c: $(echo "$out" | grep -m1 'violation:' | cut -c1-160)"; break; fi
     if [ $rc -eq 2 ]; then hit="BUILD-FAIL $c"; break; fi
+    if [ $rc -eq 124 ]; then hit="TIMEOUT $c (check did not finish in 400 s: hang mutant)"; break; fi
   done
-  git -C /repo checkout -- "$f"
+  cp "$ISO/orig.tmp" "$R/$f"
   if [ -n "$hit" ]; then echo "DETECTED|$desc|$hit" >> "$OUT"; else echo "SURVIVED|$desc|$m" >> "$OUT"; fi
 done < "$SURV"
-grep -c DETECTED "$OUT"; grep -c SURVIVED "$OUT"
+echo finished >> "$OUT.done"
